@@ -174,6 +174,15 @@ fn expected_complete(ctx: &RunCtx, only_free: bool) -> bool {
     for (i, def) in ctx.prog.ops.iter().enumerate() {
         let rec = &ctx.recs[i];
         if only_free && ctx.prog.held_objs.contains(&def.obj) { continue; }
+        if def.kind == Kind::PipeItem && !rec.accepted.load(ORD) {
+            // an item that was pushed into the input of a pipe whose target stays alive and whose output is still wanted has to be
+            // taken out of the input and processed without anything else having to happen
+            let p = def.pipe.unwrap_or(0);
+            let wanted = rec.ret.load(ORD) != 0 && ctx.prog.mortal != Some(def.obj) && ctx.pipes[p].created.load(ORD) != 0 && ctx.pipes[p].stream_dropped.load(ORD) == 0
+                && !(ctx.prog.pipes[p].through && pipe_throttled(ctx, p));
+            if wanted && !only_free { return false; }
+            continue;
+        }
         if !rec.accepted.load(ORD) { continue; }
         if ctx.prog.panics && oracle::object_panicked(ctx, def.obj) { continue; }   // the queue of a panicked object is dead
         let must_end = match def.kind {
@@ -191,6 +200,14 @@ fn expected_complete(ctx: &RunCtx, only_free: bool) -> bool {
 }
 
 pub fn helper_threads(ctx: &RunCtx) -> usize { 1 + !ctx.prog.pusher.is_empty() as usize }
+/// The producer of pipe p is legitimately held back: as many outputs are buffered (processed but not read) as the depth allows
+pub fn pipe_throttled(ctx: &RunCtx, p: usize) -> bool {
+    let pd = &ctx.prog.pipes[p];
+    let processed = pd.items.iter().filter(|it| ctx.recs[**it].end.load(ORD) != 0).count();
+    let read = ctx.pipes[p].outputs.lock().unwrap().len();
+    processed.saturating_sub(read) >= pd.depth.min(5).max(1) || (processed.saturating_sub(read) >= 5)
+}
+
 fn threads_finished(ctx: &RunCtx, started: usize) -> bool { ctx.threads_done.load(Ordering::SeqCst) >= started }
 
 pub fn run_program(prog: Program, opts: &Opts, plan: noise::Plan) -> RunResult {
@@ -316,6 +333,27 @@ pub fn run_program(prog: Program, opts: &Opts, plan: noise::Plan) -> RunResult {
             }
             for h in &ctx.holds { h.open(); }
         }
+    }
+    if let (Some(h), true) = (ctx.prog.checkpoint_hold, outcome == Outcome::Completed) {
+        // mid-run checkpoint: the consumer has stopped reading; wait until nothing moves any more, then look at the pipes
+        if native {
+            match wait_until(native, watchdog, || threads_finished(&ctx, started)) {
+                Wait::Quiescent(_) | Wait::Done => {
+                    for (p, pd) in ctx.prog.pipes.iter().enumerate() {
+                        if !pd.through || ctx.pipes[p].created.load(ORD) == 0 || ctx.prog.mortal == Some(pd.obj) { continue; }
+                        let waiting = pd.items.iter().filter(|it| ctx.recs[**it].ret.load(ORD) != 0 && ctx.recs[**it].start.load(ORD) == 0).count();
+                        if waiting > 0 && !pipe_throttled(&ctx, p) && ctx.holds[h].inside.load(Ordering::SeqCst) > 0 {
+                            let processed = pd.items.iter().filter(|it| ctx.recs[**it].end.load(ORD) != 0).count();
+                            let read = ctx.pipes[p].outputs.lock().unwrap().len();
+                            ctx.sink.report("C12", "producer_not_resumed_after_consumer_read", format!("backpressure_stuck:depth{}", pd.depth),
+                                format!("pipe {}: the consumer has read {} outputs and stopped; {} items are processed, so only {} outputs are buffered (depth {}), yet {} items wait in the input and everything is quiet", p, read, processed, processed - read.min(processed), pd.depth, waiting));
+                        }
+                    }
+                }
+                Wait::TimedOut => outcome = Outcome::Inconclusive("watchdog at the pipe checkpoint".into()),
+            }
+        }
+        ctx.holds[h].open();
     }
     if outcome == Outcome::Completed {
         match wait_until(native, watchdog, || threads_finished(&ctx, started) && expected_complete_or_pool0(&ctx)) {
@@ -802,6 +840,15 @@ fn diagnose(ctx: &Arc<RunCtx>, objects: &[Option<Arc<Obj>>], snap: &[quiesce::Th
         }
         if prog.ops.iter().enumerate().any(|(i, d)| d.kind == Kind::Suspend && d.obj == obj && ctx.resume_stamp[i].load(ORD) != 0) {
             found.push(("C13", "work_held_after_resume".into(), format!("suspend_stuck:{}:{}", st, pool_cond(ctx)), format!("object {} was resumed but {} held operation(s) never ran; queue state {}", obj, inc.len(), st)));
+        }
+    }
+    for (p, pd) in prog.pipes.iter().enumerate() {
+        if ctx.pipes[p].created.load(ORD) == 0 || prog.mortal == Some(pd.obj) || ctx.pipes[p].stream_dropped.load(ORD) != 0 { continue; }
+        let waiting: Vec<OpId> = pd.items.iter().cloned().filter(|it| ctx.recs[*it].ret.load(ORD) != 0 && !ctx.recs[*it].accepted.load(ORD)).collect();
+        if !waiting.is_empty() && !(pd.through && pipe_throttled(ctx, p)) {
+            let prop = if pd.through { "C12" } else { "C11" };
+            found.push((prop, "pipe_input_items_never_taken".into(), format!("pipe_input_stuck:{}:{}", if pd.through { "pipe" } else { "pipe_in" }, state_of(&states, pd.obj)),
+                format!("pipe {}: {} item(s) were pushed into the input (first: op {}) but the pipe never polled the input again; target queue state {}; all threads quiet", p, waiting.len(), waiting[0], state_of(&states, pd.obj))));
         }
     }
     if found.is_empty() {
